@@ -26,4 +26,13 @@ HSd == {<<>>, <<S1>>, <<S1, SC1>>}
 HIdxFull == {-2, -1, 0, 1, 2, 2147483647}
 HIdxSmall == {-1, 0, 1}
 HDat == {"d1", "garbage"}
+\* a local stream writer process can be the target of an inbound message like any other registered process
+TW == [a |-> "node", i |-> "stream/127.0.0.1:1"]
+HTgW == {<<TW>>, <<T1, TW>>}
+\* streams of two envelopes: the tables of the second one are shorter / different
+HTy2 == {<<"remote.TestMessage">>, <<"remote.TestMessage", "actor.Ping">>, <<"actor.Ping", "remote.TestMessage">>}
+HTg1 == {<<T1>>, <<T1, TC1>>}
+HSd0 == {<<>>, <<S1>>}
+HIdx01 == {0, 1}
+HDat1 == {"d1"}
 ====
